@@ -26,7 +26,7 @@ RULE = (
 ASSUMPTIONS = ["both classes non-empty", "NumPy global RandomState seeded per case", "the C13 reference model for the interval formula"]
 SAMPLERS = [("replacement", None), ("replacement", "by_label"), ("single_pass", None), ("single_pass", "by_label"), ("dynamic", None), ("dynamic", "by_label"),
             ("proportion", None), ("custom", None), ("identity", None)]
-METRICS = ["fnr", "eer", "thr", "auc", "cm_int", "vec_callable", "scalar_callable", "tpr_alias", "partly_nan", "partly_nan", "rng_callable", "uint_callable"]
+METRICS = ["fnr", "eer", "thr", "auc", "cm_int", "vec_callable", "scalar_callable", "tpr_alias", "partly_nan", "partly_nan", "rng_callable", "uint_callable", "tiny_callable"]
 
 
 def digest_cases(seed, n):
@@ -182,6 +182,10 @@ def execute(ctx, case):
         def metric(x):
             return np.array([_q8(np.median(np.asarray(x.pos, dtype=float))), _q8(np.asarray(x.neg, dtype=float).max()), _q8(np.asarray(x.pos, dtype=float).min())], dtype=np.uint8)
         kw, fn = {}, metric
+    elif mname == "tiny_callable":  # a metric expressed in small units (rates per billion): ties with the estimate are exact ties, not "close" values
+        def metric(x, threshold):
+            return 1e-9 * np.stack([x.fnr(threshold), x.fpr(threshold)])
+        kw, fn = {"threshold": th}, lambda x: metric(x, th)
     elif mname == "rng_callable":  # a metric that consumes the global RNG (like a nested bootstrap): draws and evaluations interleave
         def metric(x, threshold):
             return x.fnr(threshold) + 0.0 * np.random.random()
